@@ -5,15 +5,16 @@
 //
 // Line format (tab separated):
 //
-//	id  class  flags  a,b,c,d,e,f  group  group ...
+//	id  class  flags  a,b,c,d,e,f,kind  group  group ...
 //
 // flags: comma separated (lattice, valid, rectil, float, emptyring); a..f: the integer affine
-// per-vertex transform used for the WithTransform observations; group = tag|dump|obs with
-// obs = "A S AT ST TA L C addA addL disp" (space separated): Area(), Area(SignedArea),
-// Area(WithTransform), Area(SignedArea,WithTransform), TransformXY(f).Area(), Length(), Centroid()
+// per-vertex transform used for the WithTransform observations when kind = 0, kind 1..3 selects
+// a non-linear transform ((x*x, y), (x*y, y+x), (x*x-y, x+y*y)); group = tag|dump|obs with
+// obs = "A S AT ST TA TS L C addA addL disp" (space separated): Area(), Area(SignedArea),
+// Area(WithTransform), Area(SignedArea,WithTransform), TransformXY(f).Area(), TransformXY(f).Area(SignedArea), Length(), Centroid()
 // ("E" | "xbits:ybits" | "PANIC"), the float sums of the members' Area()/Length() and "ok" or the
 // name of a concrete-type method whose result differs from the Geometry method.
-// Tags: base, rot, rev, fcw, fccw, perm, zm, tr:dx:dy.
+// Tags: base, rot, rev, fcw, fccw, perm, zm, tr:dx:dy, sc:k (ordinates times 2^k).
 package main
 
 import (
@@ -533,6 +534,7 @@ func observe(g geom.Geometry, tr func(geom.XY) geom.XY) string {
 		bits(g.Area(geom.WithTransform(tr))),
 		bits(g.Area(geom.SignedArea, geom.WithTransform(tr))),
 		bits(g.TransformXY(tr).Area()),
+		bits(g.TransformXY(tr).Area(geom.SignedArea)),
 		bits(g.Length()),
 		centroidStr(g),
 		bits(addA), bits(addL),
@@ -570,6 +572,7 @@ func main() {
 	root := lib.NewRng(a.Seed)
 	classes := map[string]int{}
 	skipped := map[string]int{}
+	trKinds := map[int]int{}
 	cts := []geom.CoordinatesType{geom.DimXY, geom.DimXYZ, geom.DimXYM, geom.DimXYZM}
 	classNames := []string{"star", "stair", "mpoly", "line", "mline", "points", "gc_areal", "gc_lineal", "gc_point", "empty", "bigoffset", "float", "floatint", "emptyring"}
 	weights := []int{12, 12, 10, 6, 6, 5, 14, 8, 6, 3, 8, 3, 6, 2}
@@ -692,12 +695,24 @@ func main() {
 		for j := range co {
 			co[j] = r.Range(-3, 3)
 		}
+		// kind 0: the integer affine map; 1..3: non-linear maps that stay exact on the lattice
+		// (|c| < 2^10 gives values < 2^21, products in the shoelace sum < 2^53)
+		kind := r.Intn(4)
 		tr := func(p geom.XY) geom.XY {
+			switch kind {
+			case 1:
+				return geom.XY{X: p.X * p.X, Y: p.Y}
+			case 2:
+				return geom.XY{X: p.X * p.Y, Y: p.Y + p.X}
+			case 3:
+				return geom.XY{X: p.X*p.X - p.Y, Y: p.X + p.Y*p.Y}
+			}
 			return geom.XY{
 				X: float64(co[0])*p.X + float64(co[1])*p.Y + float64(co[2]),
 				Y: float64(co[3])*p.X + float64(co[4])*p.Y + float64(co[5]),
 			}
 		}
+		trKinds[kind]++
 		groups := []string{group("base", g, tr)}
 		if class != "emptyring" {
 			// ring rotation
@@ -721,9 +736,28 @@ func main() {
 			}
 			tg := g.TransformXY(func(p geom.XY) geom.XY { return geom.XY{X: p.X + dx, Y: p.Y + dy} })
 			groups = append(groups, group("tr:"+bits(dx)+":"+bits(dy), tg, tr))
+			// scaling by a power of two so large (small) that squares of ordinates overflow
+			// (underflow) while lengths and centroids stay representable: Length and Centroid
+			// must scale with the geometry (every float operation involved is exact under
+			// such a scaling unless an intermediate leaves the range)
+			if lattice && class != "bigoffset" {
+				k := r.Range(515, 560)
+				if r.Bool() {
+					k = -k
+				}
+				v = n.clone()
+				v.mapPts(func(p pt) pt { return pt{math.Ldexp(p.x, k), math.Ldexp(p.y, k)} })
+				sg := v.build(ct, &zmGen{zr.Fork()})
+				// only variants the implementation itself accepts as valid are judged
+				if sg.Validate() == nil {
+					groups = append(groups, group(fmt.Sprintf("sc:%d", k), sg, tr))
+				} else {
+					skipped["scale_variant_rejected_by_Validate"]++
+				}
+			}
 		}
-		fmt.Fprintf(w, "%d\t%s\t%s\t%d,%d,%d,%d,%d,%d\t%s\n", i, class, strings.Join(flags, ","),
-			co[0], co[1], co[2], co[3], co[4], co[5], strings.Join(groups, "\t"))
+		fmt.Fprintf(w, "%d\t%s\t%s\t%d,%d,%d,%d,%d,%d,%d\t%s\n", i, class, strings.Join(flags, ","),
+			co[0], co[1], co[2], co[3], co[4], co[5], kind, strings.Join(groups, "\t"))
 		emitted++
 	}
 	keys := make([]string, 0, len(classes))
@@ -731,6 +765,6 @@ func main() {
 		keys = append(keys, k)
 	}
 	sort.Strings(keys)
-	js, _ := json.Marshal(map[string]interface{}{"cmd": "c14", "classes": classes, "skipped_invalid": skipped})
+	js, _ := json.Marshal(map[string]interface{}{"cmd": "c14", "classes": classes, "skipped_invalid": skipped, "transform_kinds": trKinds})
 	fmt.Fprintf(w, "#GEN\t%s\n", js)
 }
